@@ -571,7 +571,7 @@ Proof. vm_compute. repeat split. Qed.
    SetAddress / ConvertRow states); whole programs are decided by the oracle streams c12.line / c12.vliw / c12.line5
    and by the model stream c12.lineconv. *)
 Require GV.Spec.LineSpec GV.Model.LineRd GV.Model.LineWr GV.Model.ConvertLine GV.Proofs.LineRdMono
-        GV.Proofs.ConvertLineProofs.
+        GV.Proofs.ConvertLineProofs GV.Proofs.ConvertLineSafe.
 
 Theorem line_convert_address_offset_exact : forall c,
   match ConvertLine.convert_address_offset c with
@@ -630,6 +630,56 @@ Example line_convert_offset_exact_hyps :
     Ok (LineRd.set_addr (LineRd.row_new LineRdMono.sample_header) 19, LineRd.XNoRow).
 Proof. split; [exact (proj1 LineRdMono.hdr_ok_examples)|]. vm_compute. split; reflexivity. Qed.
 
+(* line_convert_no_panic (both build modes, EVERY byte string as the program, every header that
+   LineProgramHeader::parse can return — C04's hdr_ok, see parse_header_hdr_ok —, INCLUDING VLIW headers):
+   a read_row call never panics and never runs out of fuel, keeps the private row inside the address size, and
+   every returned event strictly decreases the measure 2 * |remaining input| + state weight; hence the
+   whole-program iteration `while let Some(row) = convert.read_row()?` terminates within its fuel.
+   (The writer half of convert — generate_row / end_sequence — can panic exactly in the VLIW class: see
+   line_convert_vliw_refuted and C13's op_advance_overflow_refuted.) *)
+Theorem line_convert_no_panic : forall dbg be sx h c,
+  LineRdMono.hdr_ok h -> ConvertLineSafe.cl_ok h c ->
+  fst (ConvertLine.read_row dbg be sx h c) <> Panic /\
+  fst (ConvertLine.read_row dbg be sx h c) <> OutOfFuel /\
+  ConvertLineSafe.cl_ok h (snd (ConvertLine.read_row dbg be sx h c)) /\
+  (forall ev, fst (ConvertLine.read_row dbg be sx h c) = Ok (Some ev) ->
+     (ConvertLineSafe.measure (snd (ConvertLine.read_row dbg be sx h c)) < ConvertLineSafe.measure c)%nat).
+Proof. exact ConvertLineSafe.read_row_safe. Qed.
+
+Theorem line_convert_events_terminate : forall dbg be sx h c,
+  LineRdMono.hdr_ok h -> ConvertLineSafe.cl_ok h c ->
+  snd (fst (ConvertLine.events dbg be sx h c)) <> LineRd.SPanic /\
+  snd (fst (ConvertLine.events dbg be sx h c)) <> LineRd.SFuel.
+Proof. exact ConvertLineSafe.events_terminate. Qed.
+
+(* the state ConvertLineProgram::new returns satisfies the invariant (private row at offset 0, state ReadRow) *)
+Theorem line_convert_new_ok : forall dbg sx s ls c,
+  ConvertLine.cl_new dbg sx s ls = Ok c ->
+  ConvertLineSafe.cl_ok (ConvertLine.sh_h s) c /\ ConvertLine.cl_st c = ConvertLine.CSReadRow.
+Proof. exact ConvertLineSafe.cl_new_ok. Qed.
+
+(* a decoded DW_LNE_define_file entry converts to a new FileId or a specific error, never a panic *)
+Theorem line_convert_define_file_safe : forall dbg be h inp f rest sx dirs ls p,
+  LineRd.parse_insn dbg be h inp = Ok (LineSpec.IDefineFile f, rest) ->
+  match ConvertLine.convert_file sx (LineWr.p_enc p) dirs ls f with
+  | Ok (name, d, info, ls') => exists r, LineWr.add_file p name d info = Ok r
+  | Err _ => True
+  | _ => False
+  end.
+Proof.
+  intros dbg be h inp f rest sx dirs ls p H.
+  exact (ConvertLineSafe.define_file_safe sx dirs ls p f (ConvertLineSafe.parse_define_file dbg be h inp f rest H)).
+Qed.
+
+Example line_convert_no_panic_hyps : forall dbg,
+  LineRdMono.hdr_ok ConvertLineProofs.wit_vliw /\
+  exists c, ConvertLine.cl_new dbg ConvertLineProofs.wit_sx (ConvertLine.mk_src ConvertLineProofs.wit_vliw None None) [] = Ok c.
+Proof.
+  intros dbg. split.
+  - unfold LineRdMono.hdr_ok, LineRdMono.asz_ok. cbn. repeat split; discriminate.
+  - destruct dbg; vm_compute; eexists; reflexivity.
+Qed.
+
 (* the two known-finding classes (Model/ConvertLine.v known_midseq = the class of harness/src/c12.rs
    midseq_set_address; known_vliw = maximum_operations_per_instruction > 1), with model witnesses *)
 Theorem line_convert_midseq_refuted : forall dbg,
@@ -664,3 +714,5 @@ Check attr_flag_present. Check attr_dwo_id_normal_form.
 Check line_convert_address_offset_exact. Check line_convert_error_or_exact. Check line_convert_offset_exact.
 Check line_convert_set_address_first. Check line_convert_set_address_midseq.
 Check line_convert_midseq_refuted. Check line_convert_vliw_refuted.
+Check line_convert_no_panic. Check line_convert_events_terminate. Check line_convert_new_ok.
+Check line_convert_define_file_safe.
